@@ -62,7 +62,7 @@ def gen_cases(rng, tier):
   for i in range(n):
     m = gen_model(rng, i)
     route = "cli" if i % 20 == 3 else rng.choice(["inproc", "inproc", "main"])
-    cases.append({"model": m, "route": route, "tseed": rng.randrange(1 << 30), "raw": (i // 5 if i % 5 in (0, 4) and i % 3 != 1 else None)})
+    cases.append({"model": m, "route": route, "tseed": rng.randrange(1 << 30), "raw": (i // 5 if i % 5 in (0, 4) and i % 3 != 1 else None), "emptied": (i // 4 if i % 4 == 2 else None)})
   return cases
 
 
@@ -250,6 +250,25 @@ def run_case(case, ctx):
       r_subst[0], str(r_subst[1])[:200] if r_subst[0] != "ok" else "%d bytes" % len(r_subst[1]), route),
       what="templated_differs", exc=r_templ[2] if r_templ[0] == "internal" else "-", func=r_templ[3] if r_templ[0] == "internal" else "-")
     return
+  if case.get("emptied") is not None:
+    # a section whose entries are all commented out (the header remains) next to variables NAMED LIKE those entries:
+    # defining variables that nothing references must not stand in for the missing entries
+    cand = [k_ for k_, (s_, its_) in enumerate(items) if its_ and not s_.startswith("Table-Form") and s_ != "Potential-Form"]
+    if cand:
+      k_ = cand[case["emptied"] % len(cand)]
+      s_, its_ = items[k_]
+      emptied = [(x_, (list(y_) if x_ != s_ else [(None, "# %s : %s" % (kk, vv.split("\n")[0])) for kk, vv in y_])) for x_, y_ in items]
+      shadow = [(kk, vv) for kk, vv in its_ if "\n" not in vv]
+      t_plain_e = emit.items_text(emptied)
+      t_vars_e = text_with_vars(emptied, shadow, rng)
+      ra, rb = run_route(route, t_plain_e), run_route(route, t_vars_e)
+      ctx.count("emptied_section_files")
+      ctx.cls("emptied_section:" + s_.split(":")[0])
+      if not same(ra, rb):
+        ctx.violation("unused_variables_change_meaning", "[%s] with all its entries commented out: without variables -> %s (%s); with unreferenced variables named like the entries %s -> %s (%s) via %s" % (
+          s_, ra[0], str(ra[1])[:120] if ra[0] != "ok" else "%d bytes" % len(ra[1]), [kk for kk, _ in shadow], rb[0], str(rb[1])[:120] if rb[0] != "ok" else "%d bytes" % len(rb[1]), route),
+          what="unused_variables_change_meaning")
+        return
   if t_unused is not None:
     r_unused = run_route(route, t_unused)
     ctx.count("unused_variable_files")
